@@ -168,10 +168,10 @@ FromLinearIntF64(e, j, code) ==
 FromLinearRun(e, first, lst, code) ==
   /\ IsEnc(e) /\ RunOK(e, first, lst, code)
   /\ last' = "from_linear_run" /\ UNCHANGED prev
-(* IntoLinear<f32|f64, u8|u16>::into_linear: the value is on the curve and encodes back to k *)
-IntoLinearInt(e, t, k, j, back) ==
-  /\ IsEnc(e) /\ IsFin(j) /\ Dy(j)[1] >= 0
-  /\ DecodeOK(e, t, MaxCode(e), k, Dy(j)) /\ back = k
+(* IntoLinear<f32|f64, u8|u16>::into_linear: the value x (a Dy) is on the curve and encodes back to k *)
+IntoLinearInt(e, t, k, x, back) ==
+  /\ IsEnc(e) /\ x[1] >= 0
+  /\ DecodeOK(e, t, MaxCode(e), k, x) /\ back = k
   /\ last' = "into_linear_int" /\ UNCHANGED prev
 (* FromLinear<T, T> (dir "enc": v linear, w encoded) and IntoLinear<T, T> (dir "dec": v encoded, w linear),
    with the value obtained by applying the opposite function to w *)
